@@ -1,6 +1,8 @@
 // C13 correspondence harness: initTaskingSystem / numTaskingThreads / parallel_for of the working tree,
 // built once per tasking backend.  The tasking handle is process-global, so every case runs in a
-// forked child of a parent that has never touched the tasking system.
+// forked child of a parent that has never touched the tasking system.  Every child has a watchdog
+// (C13_CASE_DEADLINE_S, default 20 s; 3 s once three children have hung): a hung child is diagnosed on
+// stderr (HANGDIAG lines), killed and reported as "HANG after_result=<0|1> partial=...".
 //   harness seq   : stdin lines "n1 n2 ..."                 -> "r0 r1 r2 ..." (numTaskingThreads before / after each init)
 //   harness pf    : stdin lines "nfirst n size dur"         -> "report=R count=C max_inside=M ids=I"
 //                   (nfirst != 0: an earlier initTaskingSystem(nfirst); dur: 0 | 50 | -1 (uneven))
@@ -16,6 +18,9 @@
 #include <string>
 #include <thread>
 #include <vector>
+#include <cerrno>
+#include <poll.h>
+#include <signal.h>
 #include <sys/wait.h>
 #include <unistd.h>
 
@@ -78,10 +83,30 @@ static std::string child_pf(const std::vector<int> &a)
   return o.str();
 }
 
+// where is a hung child stuck?  per-thread kernel state from /proc, and a gdb backtrace if gdb is there (stderr)
+static void diagnose(pid_t pid)
+{
+  fprintf(stderr, "HANGDIAG pid=%d\n", (int)pid);
+  char cmd[512];
+  snprintf(cmd, sizeof cmd,
+      "for t in /proc/%d/task/*; do echo \"HANGDIAG tid=${t##*/} comm=$(cat $t/comm 2>/dev/null) state=$(cut -d' ' -f3 $t/stat 2>/dev/null) "
+      "wchan=$(cat $t/wchan 2>/dev/null) syscall=$(cut -d' ' -f1 $t/syscall 2>/dev/null)\"; done 1>&2", (int)pid);
+  int r = system(cmd);
+  snprintf(cmd, sizeof cmd,
+      "command -v gdb >/dev/null 2>&1 && timeout 60 gdb -p %d -batch -ex 'thread apply all bt 14' 2>&1 | grep -E '^(Thread|#)' | cut -c1-220 | head -150 | sed 's/^/HANGDIAG /' 1>&2",
+      (int)pid);
+  r = system(cmd);
+  (void)r;
+  fflush(stderr);
+}
+
 int main(int argc, char **argv)
 {
   if (argc < 2) return 2;
   std::string mode = argv[1];
+  int case_deadline_s = getenv("C13_CASE_DEADLINE_S") ? atoi(getenv("C13_CASE_DEADLINE_S")) : 20;
+  if (case_deadline_s < 1) case_deadline_s = 20;
+  int hangs = 0;
   std::string line;
   while (std::getline(std::cin, line)) {
     std::vector<int> v;
@@ -94,22 +119,51 @@ int main(int argc, char **argv)
     pid_t pid = fork();
     if (pid == 0) {
       close(fd[0]);
+      bool test_hang_before = !v.empty() && v[0] == 99990, test_hang_after = !v.empty() && v[0] == 99991;
+      if (test_hang_before || test_hang_after) v.erase(v.begin());   // self-test of the watchdog only
+      if (test_hang_before) pause();
       std::string r = mode == "seq" ? child_seq(v) : child_pf(v);
       r += "\n";
       ssize_t w = write(fd[1], r.c_str(), r.size());
       (void)w;
+      if (test_hang_after) pause();
       close(fd[1]);
       _exit(0);
     }
     close(fd[1]);
+    // watchdog: the child gets CASE_DEADLINE seconds; a hung child is diagnosed, SIGKILLed and reported as a HANG line
     std::string out;
     char buf[256];
-    ssize_t k;
-    while ((k = read(fd[0], buf, sizeof buf)) > 0) out.append(buf, k);
-    close(fd[0]);
+    bool hung = false, eof = false;
+    auto deadline = clk::now() + std::chrono::seconds(hangs >= 3 ? 3 : case_deadline_s);
+    auto remaining_ms = [&]() { return (int)std::chrono::duration_cast<std::chrono::milliseconds>(deadline - clk::now()).count(); };
+    while (!eof) {
+      int ms = remaining_ms();
+      if (ms <= 0) { hung = true; break; }
+      struct pollfd pf = {fd[0], POLLIN, 0};
+      int pr = poll(&pf, 1, ms);
+      if (pr == 0) { hung = true; break; }
+      if (pr < 0) { if (errno == EINTR) continue; break; }
+      ssize_t k = read(fd[0], buf, sizeof buf);
+      if (k > 0) out.append(buf, k); else eof = true;
+    }
     int st = 0;
-    waitpid(pid, &st, 0);
-    if (out.empty() || !WIFEXITED(st) || WEXITSTATUS(st) != 0) {
+    bool reaped = false;
+    while (!hung) {   // pipe closed: the child is about to _exit; still bounded
+      pid_t w = waitpid(pid, &st, WNOHANG);
+      if (w == pid) { reaped = true; break; }
+      if (remaining_ms() <= 0) { hung = true; break; }
+      usleep(1000);
+    }
+    close(fd[0]);
+    if (hung) {
+      hangs++;
+      diagnose(pid);
+      kill(pid, SIGKILL);
+      waitpid(pid, &st, 0);
+      bool complete = !out.empty() && out[out.size() - 1] == '\n';
+      printf("HANG after_result=%d partial=%s\n", complete ? 1 : 0, out.empty() ? "-" : out.substr(0, out.size() - (complete ? 1 : 0)).c_str());
+    } else if (out.empty() || !reaped || !WIFEXITED(st) || WEXITSTATUS(st) != 0) {
       printf("CRASH status=%d signal=%d partial=%s\n", WIFEXITED(st) ? WEXITSTATUS(st) : -1, WIFSIGNALED(st) ? WTERMSIG(st) : 0,
           out.empty() ? "-" : out.substr(0, out.size() - 1).c_str());
     } else {
